@@ -110,6 +110,10 @@ def _run_in_child(mod, spec, timeout):
         try:
             os.close(r)
             try:
+                os.setpgid(0, 0)  # own process group: a watchdog kill takes the case's own children with it
+            except OSError:
+                pass
+            try:
                 import faulthandler
 
                 faulthandler.enable()
@@ -160,11 +164,16 @@ def _run_in_child(mod, spec, timeout):
             chunks.append(b)
     os.close(r)
     if timed_out:
-        try:
-            os.kill(pid, signal.SIGKILL)
-        except OSError:
-            pass
+        for killer in (lambda: os.killpg(pid, signal.SIGKILL), lambda: os.kill(pid, signal.SIGKILL)):
+            try:
+                killer()
+            except OSError:
+                pass
     _, status = os.waitpid(pid, 0)
+    try:
+        os.killpg(pid, signal.SIGKILL)  # stragglers the case left behind (children blocked for good)
+    except OSError:
+        pass
     if timed_out:
         return {"inconclusive": "watchdog: case exceeded %ss" % timeout}
     raw = b"".join(chunks)
